@@ -132,3 +132,14 @@ Theorem C17_copy_subdir_skip : forall proj pc loc d es nd n des,
    exists x, gpt proj (Some (n_copy nd)) (loc ++ [n]) (Dir n des) = RNode x).
 Proof. exact copy_subdir_skip. Qed.
 Print Assumptions C17_copy_subdir_skip.
+
+(* ... and nothing else: every byte copy below <output>/page is one that the Spec accounts for
+   (an other file of a page directory, or a file of a directory named by the list that governs a
+   written page: its own copy_subdir metadata when the key is present, even empty, else the
+   project's) *)
+Theorem C17_nothing_else_copied : forall proj es p q,
+  wf_tree (Dir [] es) = true ->
+  In (p, Copy q) (f_files (writeout es (page_tree proj es))) ->
+  p = q /\ In p (spec_may_copy proj [] (Dir [] es)).
+Proof. exact nothing_else_copied. Qed.
+Print Assumptions C17_nothing_else_copied.
